@@ -58,3 +58,29 @@ Example c04_nonvacuous :
   dechunk 5 (w_body (server_emit m11 [[104;105]] [[33]]) ++ [71]) [] = Some ([104;105;33], [71]) /\
   rfc_frame m10 (server_emit m10 [[104;105]] [[33]]) = UntilClose /\ w_keep (server_emit m10 [[104;105]] [[33]]) = false.
 Proof. vm_compute. repeat split; reflexivity. Qed.
+
+(* ---------------------------------------------------------------- a request path inside a response header (Resp/EncModel.v, Resp/EncProofs.v;
+   the escape table and the shape of buffer_append_string_encoded are re-read from buffer.c on every run, Gen/GenEnc.v) *)
+From Coq Require Import List.
+From LV Require Import Gen.GenEnc Resp.EncModel Resp.EncProofs.
+
+(* whatever bytes the path holds, its ENCODING_REL_URI form is visible ASCII: no CR, LF, NUL, space or DEL can come out of it *)
+Theorem encoded_path_is_visible_ascii : forall s, Forall byte s -> forallb plain (enc_rel_uri s) = true.
+Proof. exact enc_rel_uri_is_visible_ascii. Qed.
+Print Assumptions encoded_path_is_visible_ascii.
+
+(* the Location of the redirect to "path/" cannot end its header line or the header section, whatever the request path *)
+Theorem directory_redirect_location_stays_on_its_line : forall absolute scheme authority path query,
+  Forall byte path -> no_break scheme -> no_break authority -> no_break query ->
+  no_break (dir_redirect_location absolute scheme authority path query).
+Proof. exact dir_redirect_location_has_no_line_break. Qed.
+Print Assumptions directory_redirect_location_stays_on_its_line.
+
+(* and the escape is faithful: a client that decodes the value is sent to the path that was requested *)
+Theorem encoded_path_decodes_to_the_path : forall s, Forall (fun c => byte c /\ (32 <= c)%N /\ c <> 127%N) s -> udec_loop (enc_rel_uri s) = s.
+Proof. exact enc_rel_uri_decodes_to_the_path. Qed.
+Print Assumptions encoded_path_decodes_to_the_path.
+
+(* the two facts about the source this rests on, regenerated on every run *)
+Theorem escape_and_location_as_modelled : rel_uri_escape_is_percent_hex_uc = true /\ dir_redirect_pieces_as_modelled = true.
+Proof. split; reflexivity. Qed.
